@@ -453,23 +453,50 @@ def generate(repo, cfg_include, workdir):
           'def resolveRecovery (kIsException : Bool) (st : ResultState) : Action :=',
           '  if st == recoveryState kIsException then .call else .doneResult', '']
 
-    # Done
+    # Done: every statement is recognised on its own (anything else fails closed); their ORDER is extracted as data
+    # (`doneSteps`), so that the teardown rule "the functor is destroyed before the result is published" is a theorem with
+    # a name (Props/C03 `functor_destroyed_before_publish`, `done_teardown_order`) instead of a translator failure
     f = one_func(core, 'Done', 'detail/core.hpp')
     st = stmts(A.body(f))
-    want0 = ['auto*caller=this->_self.caller', 'this->Store(std::forward<T>(value))']
-    if len(st) != 5 or [ntext(s) for s in st[:2]] != want0 or \
-            ntext(st[4]) != 'returnthis->templateSetResult<SymmetricTransfer>()':
-        raise E('Core::Done: statement order changed: %s' % [ntext(s)[:60] for s in st])
-    cx, cond, then, els = if_parts(st[2])
-    e_dec, _ = to_lean(A.text(cond), TYPE_ATOMS)
-    if not cx or els is not None or body_text(then) != 'caller->DecRef();':
-        raise E('Core::Done: DecRef statement changed')
-    cx, cond, then, els = if_parts(st[3])
-    e_fun, _ = to_lean(A.text(cond), TYPE_ATOMS)
-    if not cx or els is not None or body_text(then) != 'this->_func.storage.~Storage();':
-        raise E('Core::Done: functor destruction changed')
+    steps = []
+    e_dec = e_fun = None
+    via_local = False
+    for s_ in st:
+        t_ = ntext(s_)
+        if t_ == 'auto*caller=this->_self.caller':
+            steps.append('saveCaller')
+        elif t_ == 'this->Store(std::forward<T>(value))':
+            steps.append('store')
+        elif t_ == 'returnthis->templateSetResult<SymmetricTransfer>()':
+            steps += ['publish', 'ret']
+        elif t_ == 'autonext=this->templateSetResult<SymmetricTransfer>()':
+            steps.append('publish')
+            via_local = True
+        elif t_ == 'returnnext' and via_local:
+            steps.append('ret')
+        elif s_.get('kind') == 'IfStmt':
+            cx, cond, then, els = if_parts(s_)
+            if not cx or els is not None:
+                raise E('Core::Done: unexpected if statement `%s`' % t_[:80])
+            if body_text(then) == 'caller->DecRef();':
+                e_dec, _ = to_lean(A.text(cond), TYPE_ATOMS)
+                steps.append('releaseCaller')
+            elif body_text(then) == 'this->_func.storage.~Storage();':
+                e_fun, _ = to_lean(A.text(cond), TYPE_ATOMS)
+                steps.append('destroyFunctor')
+            else:
+                raise E('Core::Done: unexpected conditional statement `%s`' % t_[:80])
+        else:
+            raise E('Core::Done: unknown statement `%s`' % t_[:80])
+    names = ['saveCaller', 'store', 'releaseCaller', 'destroyFunctor', 'publish', 'ret']
+    if sorted(steps) != sorted(names) or steps[-1] != 'ret' or steps.index('saveCaller') > steps.index('releaseCaller'):
+        raise E('Core::Done: statements changed: %s' % [ntext(s_)[:60] for s_ in st])
     L += ['/-! Core::Done -/', 'def doneDecRef (t : Nat) (kAsync async : Bool) : Bool :=', '  ' + e_dec,
-          'def doneDestroysFunctor (async : Bool) : Bool := %s' % e_fun, '']
+          'def doneDestroysFunctor (async : Bool) : Bool := %s' % e_fun,
+          '/-- the statements of `Core::Done` in source order -/',
+          'inductive DoneStep | saveCaller | store | releaseCaller | destroyFunctor | publish | ret',
+          'deriving DecidableEq, Repr',
+          'def doneSteps : List DoneStep := [%s]' % ', '.join('.' + x for x in steps), '']
 
     # Impl
     f = one_func(core, 'Impl', 'detail/core.hpp')
